@@ -182,7 +182,14 @@ def strategy_(draw, tier):
         im["description"] = draw(st.text(alphabet="abc XYZ019", max_size=40))
         return {"kind": "vdi", "image": im}
     if kind == "hds":
-        return {"kind": "hds", "image": draw(c06.hds_spec(tier))[0]}
+        im = draw(c06.hds_spec(tier))[0]
+        if im["version"] == 2 and draw(st.integers(0, 2)) == 0:
+            # a 64-bit size: 2 TiB and more (32 MiB clusters keep the BAT small)
+            cs = 1 << 16
+            ncl = draw(st.sampled_from([1 << 16, (1 << 16) + 1, 70000, 1 << 17]))
+            im = {"version": 2, "cluster_sectors": cs, "size_sectors": ncl * cs - draw(st.sampled_from([0, 1, cs - 1])), "bat_entries": ncl,
+                  "first_block_offset": cs * 5, "in_use": draw(st.booleans()), "alloc": [[0, cs * 5], [ncl - 1, cs * 6]], "layer": 0}
+        return {"kind": "hds", "image": im}
     # hdd descriptor
     nst = draw(st.integers(1, 5))
     guids = [str(uuid.UUID(int=draw(st.integers(1, 2**128 - 1)))) for _ in range(draw(st.integers(1, 4)))]
